@@ -17,8 +17,8 @@ import itertools
 from lib import Err
 
 ID = "C19"
-COQ_IMPORTS = "From DV Require Import Model.BTreeM."
-COQ_RUN = "BTreeM.run"
+COQ_IMPORTS = "From DV Require Import Model.BTreeM Model.BTreeStoreM."
+COQ_RUN = "BTreeStoreM.run"
 CASE_TIMEOUT = 120.0
 TRUSTED = [
     "model: coq/Model/BTreeM.v (value-level _Node/BTree/Cursor algorithms) and coq/Model/BTreeStoreM.v (node store with creator tags) if present",
@@ -76,14 +76,58 @@ def dump_node(n):
     return [int(n.is_leaf), es, [dump_node(c) for c in n.children]]
 
 
+# serial numbers of the real _Node objects in creation order (monkey-patched __init__; the
+# objects are kept alive so that id() is never reused within a history)
+_SER = {"n": 0, "map": {}, "keep": []}
+
+
+def _install_serials():
+    import dns.btree as bt
+
+    if getattr(bt._Node, "_verif_patched", False):
+        return
+    orig = bt._Node.__init__
+
+    def init(self, t, creator, is_leaf):
+        orig(self, t, creator, is_leaf)
+        _SER["map"][id(self)] = _SER["n"]
+        _SER["n"] += 1
+        _SER["keep"].append(self)
+
+    bt._Node.__init__ = init
+    bt._Node._verif_patched = True
+
+
 class ImplWorld:
     def __init__(self):
         import dns.btree as bt
 
+        _install_serials()
+        _SER["n"] = 0
+        _SER["map"] = {}
+        _SER["keep"] = []
         self.bt = bt
         self.trees = []
         self.cursors = []
         self.table = {}
+
+    def store_dump(self, tr):
+        """preorder [serial, creator's tree index, leaf, flat elts, kid serials] of the real nodes"""
+        cmap = {id(t.creator): i for i, t in enumerate(self.trees)}
+        out = []
+
+        def walk(n):
+            es = []
+            for e in n.elts:
+                es.append(e.key())
+                es.append(e.value() if hasattr(e, "value") else 0)
+            out.append([_SER["map"].get(id(n), -1), cmap.get(id(n.creator), -1), int(n.is_leaf), es,
+                        [_SER["map"].get(id(c), -1) for c in n.children]])
+            for c in n.children:
+                walk(c)
+
+        walk(tr.root)
+        return out
 
     def elt(self, k, v):
         e = self.table.get(v)
@@ -146,7 +190,7 @@ class ImplWorld:
                 self.cursors.append(cur)
                 return None
             if c == DUMP:
-                return [dump_node(tr.root), 1]
+                return [[dump_node(tr.root), 1], self.store_dump(tr), 1]
             if c == ITER:
                 return list(iter(tr))
             if c == DSET:
